@@ -10,9 +10,10 @@ import (
 
 type sessGhost struct{ acceptQ chan *yamux.Stream }
 type streamGhost struct {
-	id     uint32
-	closed bool
-	acked  []uint32
+	id      uint32
+	closed  bool
+	acked   []uint32
+	aborted bool // the peer opened the stream and dropped it before writing the ID
 }
 
 var sessG = map[*yamux.Session]*sessGhost{}
@@ -33,7 +34,13 @@ func mStreamClose(s *yamux.Stream) error {
 	return nil
 }
 
-func vStreamReadU32(r io.Reader) (uint32, error) { return strmG[r.(*yamux.Stream)].id, nil }
+func vStreamReadU32(r io.Reader) (uint32, error) {
+	g := strmG[r.(*yamux.Stream)]
+	if g.aborted {
+		return 0, io.ErrUnexpectedEOF
+	}
+	return g.id, nil
+}
 func vStreamWriteU32(w io.Writer, v uint32) error {
 	g := strmG[w.(*yamux.Stream)]
 	g.acked = append(g.acked, v)
@@ -61,8 +68,19 @@ func harnessC09a() {
 	t1, t2 := vNondetTime("t1"), vNondetTime("t2")
 	vAssume(t1 <= t2)
 	in1, in2 := newInbound(x1), newInbound(x2)
+	var dropped *yamux.Stream
+	if vChoice(2) == 1 {
+		// a peer that opens a stream and drops it before the ID is written (what MuxBroker.Dial itself does when its write
+		// fails, or a peer that dies at that moment): that one stream is discarded, the broker carries on
+		vCover("stream-dropped-before-id")
+		dropped = new(yamux.Stream)
+		strmG[dropped] = &streamGhost{aborted: true}
+	}
 	go func() {
 		vSleepUntil(t1)
+		if dropped != nil {
+			g.acceptQ <- dropped
+		}
 		g.acceptQ <- in1
 		vSleepUntil(t2)
 		g.acceptQ <- in2
@@ -101,6 +119,9 @@ func harnessC09a() {
 		} else {
 			vAssert(!strmG[in].closed && len(strmG[in].acked) == 1, "C09: the accepted stream is acknowledged and left open")
 		}
+	}
+	if dropped != nil {
+		vAssert(strmG[dropped].closed, "C09: a stream whose ID cannot be read is closed")
 	}
 	st := newInbound(f)
 	g.acceptQ <- st
